@@ -33,10 +33,27 @@ def make_dag(seed, ncells, exotic):
             c = RCell(_rbits(rng, nb), [])
         if exotic and cells and rng.random() < 0.25:
             try:
-                kind = rng.choice(['proof', 'proof', 'library', 'update', 'nested', 'nested3'])
+                kind = rng.choice(['proof', 'proof', 'library', 'update', 'nested', 'nested3', 'lookalike', 'lookalike'])
                 tgt = rng.choice(cells)
                 if kind == 'library':
                     c = RCell('1', (library_ref_of(tgt.hash),))
+                elif kind == 'lookalike':
+                    # an exotic cell and an ordinary cell with bit-identical data (and the same children) are different cells;
+                    # a conforming encoder emits both
+                    if rng.random() < 0.5 or tgt.mask:
+                        ex = library_ref_of(tgt.hash)
+                        pair = [ex, RCell(ex.bits)]
+                        rng.shuffle(pair)
+                        c = RCell(_rbits(rng, rng.choice([0, 5])), pair + ([tgt] if rng.random() < 0.5 else []))
+                    else:
+                        ex = pruned_of(tgt, 1)
+                        pair = [ex, RCell(ex.bits)]
+                        rng.shuffle(pair)
+                        c = merkle_proof_of(RCell('1', pair))
+                        inner = merkle_proof_of(tgt)
+                        if rng.random() < 0.5:
+                            # a Merkle proof cell next to an ordinary cell with the same bits and the same child
+                            c = RCell('', (c, inner, RCell(inner.bits, inner.refs)))
                 elif kind == 'update' and tgt.mask == 0 and c.mask == 0:
                     c = merkle_update_of(RCell('0', (pruned_of(tgt, 1),)), RCell('1', (pruned_of(c, 1), tgt)))
                 elif kind == 'nested' and tgt.mask == 0 and c.mask == 0:
